@@ -13,6 +13,9 @@ import (
 func init() { register("C17", checkC17) }
 
 func checkC17(p *load.Program, r *kit.Report) {
+	r.Rule("REMOVE-ONE", "MarkHeaderNotInvalid takes exactly the matching hash out of the invalid list", 1)
+	checkUnmarkRemovesOne(p, r, "REMOVE-ONE")
+	importRules(p, r, "C01", "after a marked header is trimmed the best chain falls back to the heaviest remaining chain: Longest() compares every candidate with the best one found so far", 1, nil, "ARGMAX")
 	importRules(p, r, "C11", "the marking survives Save/Load on every kind of store: load reads the stored list before any exit that can succeed, also the legacy-store exit through migrate", 1, nil, "RESTORE-INVALID-LIST")
 	importRules(p, r, "C01", "the fallback to the heaviest remaining chain must survive a restart: load selects the most-work branch, not the first one of the index (the trimmed main branch until the next consolidation)", 1,
 		func(o *kit.Obligation) bool { return strings.Contains(o.Construct, "Repository.load") }, "WRITERS")
